@@ -4,6 +4,7 @@ import (
 	"bytes"
 	"encoding/xml"
 	"fmt"
+	"sort"
 	"strings"
 
 	"mellium.im/xmpp/paging"
@@ -38,10 +39,26 @@ var pageAlphabet = []string{
 
 // canonToks: tokens as the models see them (declarations dropped, attributes sorted).
 func canonToks(toks []xml.Token) []xml.Token {
-	b := printToks(toks)
-	out, err := reparse(b)
-	if err != nil {
-		return toks
+	out := make([]xml.Token, 0, len(toks))
+	for _, t := range toks {
+		if s, ok := t.(xml.StartElement); ok {
+			var attrs []xml.Attr
+			for _, a := range s.Attr {
+				if a.Name.Space == "xmlns" || (a.Name.Space == "" && a.Name.Local == "xmlns") {
+					continue
+				}
+				attrs = append(attrs, a)
+			}
+			sort.SliceStable(attrs, func(i, j int) bool {
+				if attrs[i].Name.Space != attrs[j].Name.Space {
+					return attrs[i].Name.Space < attrs[j].Name.Space
+				}
+				return attrs[i].Name.Local < attrs[j].Name.Local
+			})
+			s.Attr = attrs
+			t = s
+		}
+		out = append(out, t)
 	}
 	return out
 }
@@ -116,6 +133,51 @@ func pageIterDoc(c *ctx, max uint64, doc []byte, class string) {
 			}
 		}
 		obs = fmt.Sprintf("%s %s %s %s", common.EncToks(canonToks(items)), cur, next, prev)
+		// the oracle's own reading of the response: every child that is not a top-level RSM set
+		// is handed out unchanged and in order; the page requests follow the last such set
+		var want, lastSet []xml.Token
+		depth, inSet := 0, false
+		for _, t := range kids {
+			st, isStart := t.(xml.StartElement)
+			if isStart && depth == 0 && st.Name.Space == rsmNS && st.Name.Local == "set" {
+				inSet, lastSet = true, nil
+			}
+			if inSet {
+				lastSet = append(lastSet, t)
+			} else {
+				want = append(want, t)
+			}
+			switch t.(type) {
+			case xml.StartElement:
+				depth++
+			case xml.EndElement:
+				depth--
+				if depth == 0 {
+					inSet = false
+				}
+			}
+		}
+		if common.EncToks(want) != common.EncToks(canonToks(items)) {
+			r.Fail("roundtrip", "paging.Iter/items", lines, fmt.Sprintf("children handed out %s\nwant %s\n%q", common.EncToks(canonToks(items)), common.EncToks(want), doc))
+		}
+		wantNext, wantPrev := "!", "!"
+		if lastSet != nil {
+			var ps paging.Set
+			if pan, err := safeUnmarshal(printToks(lastSet), &ps); pan == "" && err == nil {
+				if ps.Last != "" {
+					wantNext = dashS(ps.Last)
+				}
+				if ps.First.ID != "" {
+					wantPrev = dashS(ps.First.ID)
+				}
+			}
+		}
+		if next != wantNext {
+			r.Fail("roundtrip", "paging.Iter/next-page", lines, fmt.Sprintf("NextPage after %s, the last <set/> of the response says %s\n%q", next, wantNext, doc))
+		}
+		if prev != wantPrev {
+			r.Fail("roundtrip", "paging.Iter/previous-page", lines, fmt.Sprintf("PreviousPage before %s, the last <set/> of the response says %s\n%q", prev, wantPrev, doc))
+		}
 	}
 	r.Line("piter "+common.EncToks(kids), obs)
 }
